@@ -21,9 +21,14 @@ macro_rules! env {
 pub(crate) use env as __env_by_path;
 
 mod ce;
+#[cfg(feature = "likelysubtags")]
+mod conc;
+#[cfg(not(feature = "likelysubtags"))]
+#[path = "conc_stub.rs"]
 mod conc;
 mod gens;
 mod isolate;
+#[cfg(feature = "likelysubtags")]
 mod libsim;
 mod oracle;
 mod rng;
@@ -1369,6 +1374,9 @@ fn cmd_check(a: &Args) -> i32 {
     });
     let conc_rep = conc::run_batch(seed, conc_runs, threads, secs(60, 1800));
     let conc_wall = t_conc.elapsed().as_secs_f64();
+    if !conc::BUILT {
+        println!("NOTE: the library's sources do not compile inside the simulator (see gensim/build.first.log): the concurrent-callers batch (S7) is skipped");
+    }
     println!(
         "concurrent callers (S7): {} runs ({}), {} lookups and direction queries from up to {} caller threads, {} scheduling steps, {} with a choice, {} context switches, {} distinct interleavings over {} workloads, failing runs {}; determinism recheck {} runs, {} mismatches",
         conc_rep.runs,
@@ -1840,6 +1848,7 @@ fn cmd_check(a: &Args) -> i32 {
             },
             "concurrent_callers": {
                 "note": "S7: the library's own source compiled a second time with the thread engine's sync/thread primitives (every lock, atomic, Once and thread-local of a lookup is a scheduling point), called from 2-4 simulated caller threads under the simulator's seeded scheduler (uniform, sticky, priority with change points); workload (which rows of the six tables and which directions each caller asks for) drawn from the same seed; every answer must be the value stored in the row asked for. The pinned lookup shares no state between callers, so a lookup is one step and only the order of whole calls varies; a lookup with process-wide state gets a forked process per run.",
+                "built": conc::BUILT,
                 "runs": conc_rep.runs,
                 "runs_per_hour": (conc_rep.runs as f64 / conc_wall.max(1e-9) * 3600.0) as u64,
                 "library_process_state": conc_rep.process_state,
